@@ -9,6 +9,7 @@ import httpx
 from graphql import build_schema, graphql_sync, parse, validate
 
 from .util import load_payload, emit, import_pkg
+from ..varcore import DEFAULTS
 
 WIDX = {"T": 0, "T!": 1, "[T]": 2, "[T]!": 3, "[T!]": 4, "[T!]!": 5, "[[T!]]": 6}
 
@@ -255,6 +256,8 @@ def main():
                 results.append(result_case(c, k, client, methods, sm, pkg, loop, is_async, RESULT, val))
                 continue
             opname = {"var": "OpV_", "field": "OpF_", "nested": "OpN_", "sub_var": "OpSV_", "sub_field": "OpSF_"}[pos] + k
+            if c.get("dflt"):
+                opname = {"var": "OpVD_", "sub_var": "OpSVD_"}[pos] + k
             is_sub = pos.startswith("sub")
             pos = {"sub_var": "var", "sub_field": "field"}.get(pos, pos)
             meth = getattr(client, methods[opname.replace("_", "").lower()])
@@ -323,6 +326,8 @@ def main():
                         inner = ((kw.get("o") or {}).get("inner") or {})
                         got_present, got = "a" in inner, inner.get("a")
                     rec["delivered"] = abstract(got, kind) if got_present else ["absent"]
+                    if c.get("dflt") and got_present and got == DEFAULTS.get((kind, w), (None, object()))[1]:
+                        rec["delivered"] = ["default"]
                     rec["delivered_raw"] = got
             else:
                 rec["present"] = None
